@@ -14,7 +14,7 @@ ID = 'C20'
 
 MANIFEST = {
     'engine': 'symx',
-    'text': 'Bounded symbolic exploration of the real generator source on the real numpy with every random draw decided by the solver (RNG stub) and the index selections, class counts, class distributions (as float, list and ndarray), noise levels, label vectors and down-sampling sizes chosen by the solver: duplicates are exact copies and the self-description lists exactly the appended column indices; combinations equal the stated function and record the appended index; correlated features only: shape and recorded indices; quantile labels are a monotone step function of the decision value with the requested class sizes whenever the cumulative proportions hit whole numbers of tie-free samples; categorical noise changes at most floor(p*n) cells per feature and only to values of that feature\'s own value set, missing-type noise writes exactly floor(p*n) markers per feature, both leave the input untouched; down-sampling returns exactly n original rows of every class and refuses n above the minority size. Missing-type noise is also applied to a float64 copy of the data (input must stay untouched); labels are checked for up to 63 classes.',
+    'text': 'Bounded symbolic exploration of the real generator source on the real numpy with every random draw decided by the solver (RNG stub) and the index selections, class counts, class distributions (as float, list and ndarray), noise levels, label vectors and down-sampling sizes chosen by the solver: duplicates are exact copies and the self-description lists exactly the appended column indices; combinations equal the stated function and record the appended index; correlated features only: shape and recorded indices; quantile labels are a monotone step function of the decision value with the requested class sizes whenever the cumulative proportions hit whole numbers of tie-free samples; categorical noise changes at most floor(p*n) cells per feature and only to values of that feature\'s own value set, missing-type noise writes exactly floor(p*n) markers per feature, both leave the input untouched; down-sampling returns exactly n original rows of every class and refuses n above the minority size. Missing-type noise is also applied to a float64 copy of the data (input must stay untouched); labels are checked for up to 63 classes. Duplicates, combinations and correlated features are also generated from the same data set shifted to the top of the int32 range (sums beyond 2^31).',
     'note': 'The Pearson-correlation clause of generate_correlated is NOT proved: it is only evaluated numerically (tolerance 1e-6) on every 4-sample source over {0,1,2} paired with a second column (condition pearson); a symbolic treatment is out of reach: the construction is a rational function with square roots in >= 7 real unknowns already at n = 3; z3 4.8/5.1 and cvc5 give no answer within 60 s on the hand-simplified identity (DESIGN 2.7). The k-means label path (sklearn FFI) is outside. <=5 samples x 3 features, <=3 classes; missing-type noise is exercised with an explicit integer marker.',
     'technique': 'solver-driven bounded exploration of the real Python code on real numpy with a nondeterministic RNG stub (every draw and every configuration choice a solver decision; coverage certificate)',
 }
